@@ -277,21 +277,33 @@ def verify_unit(unit, canary=True, extra=()):
     if r.status == "ok" and (r.verified_count == 0 or not obl):
         r.status = "undecided"
         r.undecided_reason = "vacuous run: zero obligations"
-    # canary
+    # canaries: `ensures false` injected on each listed function must be REFUTED (vacuity / broken-injector guard).
+    # quick tier: the first two targets; thorough (VERIF_TIER=thorough or canary="all"): every target.
     r.canary = None
-    if canary and r.status == "ok" and m.get("canary"):
-        try:
-            cm = B.build(upath, WORK, canary=True)
-            cres = _run_verus(cm["rs"], extra)
-            cfail = any(classify(d) == "verif" for d in cres["diags"])
-            cfront = [d for d in cres["diags"] if classify(d) == "frontend"]
-            r.canary = dict(function=m["canary"], failed_as_required=bool(cfail and not cfront), wall=cres["wall"])
-            if not r.canary["failed_as_required"]:
+    r.canaries = []
+    if canary and r.status == "ok" and m.get("canaries"):
+        targets = list(m["canaries"])
+        if not (canary == "all" or os.environ.get("VERIF_TIER") == "thorough"):
+            targets = targets[:2]
+        for tg in targets:
+            try:
+                cm = B.build(upath, WORK, canary=tg)
+                cres = _run_verus(cm["rs"], list(extra) + ["--verify-function", tg, "--verify-root"])
+                cfail = any(classify(d) == "verif" for d in cres["diags"])
+                cfront = [d for d in cres["diags"] if classify(d) == "frontend"]
+                ent = dict(function=tg, failed_as_required=bool(cfail and not cfront), wall=round(cres["wall"], 2))
+                r.canaries.append(ent)
+                if not ent["failed_as_required"]:
+                    r.status = "undecided"
+                    r.undecided_reason = ("canary: `ensures false` on %s was NOT refuted (vacuous preconditions, broken "
+                                          "injection or unknown function name)" % tg)
+                    break
+            except (B.BuildError, rsx.ScanError) as e:
                 r.status = "undecided"
-                r.undecided_reason = "canary: `ensures false` on %s was NOT refuted (vacuous preconditions or broken injection)" % m["canary"]
-        except (B.BuildError, rsx.ScanError) as e:
-            r.status = "undecided"
-            r.undecided_reason = "canary build: %s" % e
+                r.undecided_reason = "canary build: %s" % e
+                break
+        if r.canaries:
+            r.canary = r.canaries[0]
     return r
 
 
@@ -308,5 +320,5 @@ if __name__ == "__main__":
             print("\n".join(r.frontend[:10]))
         if r.resource:
             print("\n".join(r.resource[:10]))
-        print("canary:", r.canary)
+        print("canaries:", r.canaries)
         print("assumptions:", len(r.assumptions))
